@@ -5,4 +5,4 @@ EXPLANATION = ("Bounded end-to-end comparison at the public interface: ConfigLoa
                "running-width relativistic Breit-Wigner, Legendre polynomial of the helicity cosine computed by explicit boosts), absolute normalisation 1.")
 ASSUMPTIONS = []
 
-from vt.contracts import iface_amp  # noqa: F401,E402
+from vt.contracts import iface_amp, iface_c04_frames  # noqa: F401,E402
